@@ -74,16 +74,20 @@ type Sched struct {
 	steps    int
 
 	// configuration
-	MaxSteps  int
-	IdleStep  time.Duration
-	MaxIdle   int
-	Verbose   bool
-	Deadlock  bool
-	Diverged  string
-	StepHook  func() // called by the controller after every quiescence (all threads parked)
-	fails     []Failure
-	notes     []string
-	abortFlag atomic.Bool
+	MaxSteps int
+	// FreeSwitchCost is what choosing a non-default thread costs when the running
+	// thread is not enabled (0 = free, as in preemption bounding; 1 = delay bounding:
+	// every deviation from the canonical default order counts against the budget).
+	FreeSwitchCost int
+	IdleStep       time.Duration
+	MaxIdle        int
+	Verbose        bool
+	Deadlock       bool
+	Diverged       string
+	StepHook       func() // called by the controller after every quiescence (all threads parked)
+	fails          []Failure
+	notes          []string
+	abortFlag      atomic.Bool
 }
 
 // Failure is a property violation recorded by the harness body for this execution.
@@ -361,7 +365,7 @@ func (s *Sched) Run() {
 		idle = 0
 		idx := 0
 		if len(en) > 1 {
-			cost := 0
+			cost := s.FreeSwitchCost
 			if s.running != nil && en[0] == s.running {
 				cost = 1
 			}
